@@ -13,6 +13,7 @@
 #include <gmpxx.h>
 
 #include <limits>
+#include <unordered_set>
 #include <ostream>
 #include <string>
 #include <type_traits>
@@ -129,6 +130,112 @@ struct QP {
   }
 };
 
+// ---- lazily evaluated archetype -----------------------------------------------
+// vf::LQ offers the documented operations like vf::Q, but its binary operators and unary minus return light
+// proxies that refer to their operands and are evaluated only when converted to LQ - the scheme of GMP's own
+// mpq_class/mpf_class and of expression-template number types. Code that keeps such a result in `auto` or
+// stores it by value for later use reads destroyed temporaries; every LQ and every proxy registers itself while
+// alive, so that evaluating a proxy whose operand has died is detected deterministically (counted in
+// g_dead_operand_reads, the operand reads as zero) instead of executing undefined behaviour.
+inline thread_local long g_dead_operand_reads = 0;
+struct LTag {};
+inline std::unordered_set<const void *> &live_set() {
+  static thread_local std::unordered_set<const void *> s;
+  return s;
+}
+struct LNode : LTag {
+  LNode() { live_set().insert(this); }
+  LNode(const LNode &) { live_set().insert(this); }
+  LNode &operator=(const LNode &) { return *this; }
+  ~LNode() { live_set().erase(this); }
+  bool alive() const { return live_set().count(this) > 0; }
+};
+template <class X>
+inline constexpr bool is_l = std::is_base_of_v<LTag, X>;
+struct LQ;
+template <class X>
+inline mpq_class leval(const X &x);
+template <class L, class R, char OP>
+struct LBin : LNode {
+  const L &l;
+  const R &r;
+  LBin(const L &l_, const R &r_) : l(l_), r(r_) {}
+  mpq_class eval() const {
+    mpq_class a = leval(l), b = leval(r);
+    if (OP == '+') return a + b;
+    if (OP == '-') return a - b;
+    if (OP == '*') return a * b;
+    if (b == 0) { ++g_div_zero; return mpq_class(0); }
+    return a / b;
+  }
+};
+template <class A>
+struct LNeg : LNode {
+  const A &a;
+  explicit LNeg(const A &a_) : a(a_) {}
+  mpq_class eval() const { return -leval(a); }
+};
+struct LQ : LNode {
+  mpq_class v;
+  bool p;
+  LQ() : v(0), p(true) {}
+  LQ(from_mpq_t, const mpq_class &q) : v(q), p(false) {}
+  explicit LQ(int i) : v(i), p(false) {}
+  template <class L, class R, char OP>
+  LQ(const LBin<L, R, OP> &e) : v(leval(e)), p(false) {}
+  template <class A>
+  LQ(const LNeg<A> &e) : v(leval(e)), p(false) {}
+  mpq_class eval() const {
+    if (p) ++g_poison_reads;
+    return v;
+  }
+  template <class X, std::enable_if_t<is_l<X>, int> = 0>
+  LQ &operator+=(const X &o) { v = eval() + leval(o); p = false; return *this; }
+  template <class X, std::enable_if_t<is_l<X>, int> = 0>
+  LQ &operator-=(const X &o) { v = eval() - leval(o); p = false; return *this; }
+  template <class X, std::enable_if_t<is_l<X>, int> = 0>
+  LQ &operator*=(const X &o) { v = eval() * leval(o); p = false; return *this; }
+  template <class X, std::enable_if_t<is_l<X>, int> = 0>
+  LQ &operator/=(const X &o) {
+    mpq_class d = leval(o);
+    if (d == 0) { ++g_div_zero; v = 0; } else v = eval() / d;
+    p = false;
+    return *this;
+  }
+};
+template <class X>
+inline mpq_class leval(const X &x) {
+  if (!x.alive()) {
+    ++g_dead_operand_reads;  // operand of a lazily evaluated result was destroyed before the result was used
+    return mpq_class(0);
+  }
+  return x.eval();
+}
+#define VF_LBIN(OPC, OPS)                                                             \
+  template <class L, class R, std::enable_if_t<is_l<L> && is_l<R>, int> = 0>          \
+  inline LBin<L, R, OPC> operator OPS(const L &l, const R &r) {                       \
+    return LBin<L, R, OPC>(l, r);                                                     \
+  }
+VF_LBIN('+', +)
+VF_LBIN('-', -)
+VF_LBIN('*', *)
+VF_LBIN('/', /)
+template <class A, std::enable_if_t<is_l<A>, int> = 0>
+inline LNeg<A> operator-(const A &a) {
+  return LNeg<A>(a);
+}
+#define VF_LCMP(OPS)                                                                  \
+  template <class L, class R, std::enable_if_t<is_l<L> && is_l<R>, int> = 0>          \
+  inline bool operator OPS(const L &l, const R &r) {                                  \
+    return leval(l) OPS leval(r);                                                     \
+  }
+VF_LCMP(<)
+VF_LCMP(<=)
+VF_LCMP(>)
+VF_LCMP(>=)
+VF_LCMP(==)
+VF_LCMP(!=)
+
 // ---- uniform access from harness code ------------------------------------
 template <class S>
 struct is_exact : std::false_type {};
@@ -136,6 +243,8 @@ template <>
 struct is_exact<Q> : std::true_type {};
 template <>
 struct is_exact<QP> : std::true_type {};
+template <>
+struct is_exact<LQ> : std::true_type {};
 
 template <class S>
 inline S mk(const mpq_class &q) {
